@@ -114,6 +114,8 @@ class Ctx:
         path = os.path.join(self.work, "Audit_%s.v" % module.replace(".", "_"))
         open(path, "w").write(src)
         rc, out2 = self.coqc(path)
+        if self.tier == "thorough" and ok_static and not getattr(self, "replay", None):
+            self.coqchk(module)
         for t in theorems:
             m = re.search(r"@@BEGIN %s\n(.*?)@@END %s" % (re.escape(t), re.escape(t)), out2, re.S)
             name = "%s.%s" % (module, t)
@@ -135,6 +137,25 @@ class Ctx:
                     self.broken.append(("obligation", name, txt[:1500]))
                 else:
                     self.obligations.append((name, True, "axioms: " + ",".join(axs)))
+
+    def coqchk(self, module, timeout=3000):
+        """thorough tier: re-check the compiled closure of a property module with the independent
+        checker and record the axioms it reports"""
+        rc, out = sh(["coqchk", "-silent", "-o", "-Q", os.path.join(COQ, "theories"), "KM", "KM." + module],
+                     cwd=COQ, timeout=timeout)
+        m = re.search(r"\* Axioms:(.*?)\n\s*\n\* Constants/Inductives relying on type-in-type:(.*?)\n\s*\n\* Constants/Inductives relying on unsafe \(co\)fixpoints:(.*?)\n\s*\n\* Inductives whose positivity is assumed:(.*?)\n", out + "\n\n", re.S)
+        name = "coqchk:KM.%s" % module
+        if rc != 0 or not m:
+            self.obligations.append((name, False, "coqchk failed"))
+            self.broken.append(("obligation", name, out[-2000:]))
+            return
+        axioms, tit, unsafe, pos = [" ".join(x.split()) for x in m.groups()]
+        self.coqchk_report = {"axioms": axioms, "type_in_type": tit, "unsafe_fixpoints": unsafe, "assumed_positivity": pos}
+        ok = tit == "<none>" and unsafe == "<none>" and pos == "<none>" and \
+            all(allowed_axiom(a.split(":")[0].strip()) for a in ([] if axioms == "<none>" else axioms.split(" ")) if a and not a.startswith(":"))
+        self.obligations.append((name, ok, "axioms: %s" % axioms))
+        if not ok:
+            self.broken.append(("obligation", name, out[-2000:]))
 
     def gen_obligations(self, oblfile, names, gen_dir=None):
         """compile coq/obl/<oblfile> (which closes obligations over regenerated tables in
@@ -349,6 +370,8 @@ class Ctx:
             "distribution": self.dist,
             "known_findings_seen": sorted(seen_known.keys()),
         })
+        if getattr(self, "coqchk_report", None):
+            cov["coqchk"] = self.coqchk_report
         if level_unproved:
             cov["unproved"] = level_unproved
         if not cov["samples"]:
